@@ -61,7 +61,11 @@ theorem close_wakes_all (w : World) (c : Nat) (ho : (w.chans c).closed = false) 
 /-! ## conservation, for every sequence of actions (any interleaving, any program) -/
 
 /-- For every action sequence from the start state, every channel `c` and every value `x`:
-    #times `x` was pushed into `c` = #times `c` handed `x` out + #copies still queued in `c`. -/
+    #times `x` was pushed into `c` = #times `c` handed `x` out + #copies still queued in `c`.
+    `pushed` is every value accepted by janet_channel_push_with_lock - INCLUDING a value that the registration loop of a
+    select enqueued for a give clause whose select then completed through another clause: such a value counts as given
+    here, stays queued and is handed to a later taker (`select_losing_give_value_delivered` below; on the implementation
+    this is the known finding `select-losing-give-clause-value-delivered`). -/
 theorem conservation (limits : Nat → Nat) (as : List Action) (c x : Nat) :
     let w := run currentCfg (World.start limits) as
     (onChan w.ghost.pushed c).count x = (onChan w.ghost.handed c).count x + (w.chans c).items.count x :=
@@ -133,6 +137,17 @@ theorem take_wakes_stale_select_writer :
     w.ghost.dropped.map (·.value) = [Val.take 1 2001] ∧ w.ghost.received = [(3, 1001)] := by decide
 
 example : (run Cfg.good (World.start fun _ => 0) staleWriterActs).ghost.dropped = [] := by decide
+
+/-- Not repaired in the source, present with every check (`Cfg.good`): A `(ev/select [c0 1001] c1)` suspends having
+    enqueued 1001 on c0; B `(ev/give c1 2001)` completes A's select through its take clause (A receives 2001, its select
+    yields `[:take c1 2001]`); T `(ev/take c0)` then receives 1001, the value of A's LOSING give clause.  The stale-writer
+    skip of pop keeps A from being woken a second time (nothing is dropped), but the value itself was pushed and is
+    handed out. -/
+theorem select_losing_give_value_delivered :
+    let w := run Cfg.good (World.start fun _ => 0) staleWriterActs
+    w.ghost.received = [(1, 2001), (3, 1001)] ∧ w.ghost.pushed = [(0, 1001), (1, 2001)] ∧
+    w.ghost.handed = [(1, 2001), (0, 1001)] ∧ w.ghost.dropped = [] := by decide
+
 
 /-- A: `(ev/select c0 c1)`, B: `(ev/give c1 2001)`, T: `(ev/chan-close c0)`: closing c0 schedules A through its stale
     entry; the task carrying 2001 is dropped and A's select yields `[:close c0]`. -/
